@@ -147,7 +147,7 @@ def gen_sched_case(rng):
     slm_end = rng.choice([0.0, a, b, (a + b) / 2, a + (b - a) / 4, a + 3 * (b - a) / 4, pts[1] / 2, pts[1] / 4, pts[-1], pts[-1] + 5.0])
     backend = rng.choice(T_BACKENDS)
     return dict(grid=pts, slm_end=slm_end, backend=backend, obs0=rng.random() < 0.5,
-                reorder=(backend != "sv" and rng.random() < 0.4), nq=rng.choice([2, 3]) if backend != "sv" else 2)
+                reorder=(backend != "sv" and rng.random() < 0.07), nq=rng.choice([2, 3]) if backend != "sv" else 2)
 
 
 T_BACKENDS = ["sv", "mps", "dmrg"]
